@@ -1,0 +1,9 @@
+//go:build !verif
+
+package app
+
+import "sync"
+
+// stateMutex guards runtimeState. It is sync.RWMutex itself; verification builds
+// (-tags verif) substitute a wrapper that reports every write-unlock.
+type stateMutex = sync.RWMutex
